@@ -264,4 +264,45 @@ MUTANTS = [
     dict(name='c14-seal-allocates-short', expect=[('C14', 'R01.4')],
          note='allocating seal returns ciphertext without room for the tag (panics at append)',
          edits=[(AEAD, "let mut buf = vec![0u8; msg_len + tag_len];", "let mut buf = vec![0u8; msg_len + tag_len + 1];")]),
+    # ------------------------------------------------------------------ C15
+    dict(name='c15-or-for-and', expect=[('C15', 'R15.1')],
+         note='lone psk accepted (caught by the 4-case unit test as well)',
+         edits=[(OPMODE, "if (psk.is_empty() && psk_id.is_empty()) || (!psk.is_empty() && !psk_id.is_empty()) {",
+                 "if (psk.is_empty() || psk_id.is_empty()) || (!psk.is_empty() && !psk_id.is_empty()) {")]),
+    dict(name='c15-fields-swapped-in-new', expect=[('C15', 'R15.2')],
+         note='psk and psk_id swapped at construction on both sides: interop only',
+         edits=[(OPMODE, "Ok(PskBundle { psk, psk_id })", "Ok(PskBundle { psk: psk_id, psk_id: psk })")]),
+    dict(name='c15-accessors-swapped', expect=[('C15', 'R15.3')],
+         note='psk used as psk_id and vice versa on both sides: interop only',
+         edits=[(OPMODE, """            OpModeR::Psk(bundle) => bundle.psk,
+            OpModeR::AuthPsk(_, bundle) => bundle.psk,""", """            OpModeR::Psk(bundle) => bundle.psk_id,
+            OpModeR::AuthPsk(_, bundle) => bundle.psk_id,"""),
+                (OPMODE, """            OpModeR::Psk(p) => p.psk_id,
+            OpModeR::AuthPsk(_, p) => p.psk_id,""", """            OpModeR::Psk(p) => p.psk,
+            OpModeR::AuthPsk(_, p) => p.psk,"""),
+                (OPMODE, """            OpModeS::Psk(bundle) => bundle.psk,
+            OpModeS::AuthPsk(_, bundle) => bundle.psk,""", """            OpModeS::Psk(bundle) => bundle.psk_id,
+            OpModeS::AuthPsk(_, bundle) => bundle.psk_id,"""),
+                (OPMODE, """            OpModeS::Psk(p) => p.psk_id,
+            OpModeS::AuthPsk(_, p) => p.psk_id,""", """            OpModeS::Psk(p) => p.psk,
+            OpModeS::AuthPsk(_, p) => p.psk,""")]),
+    dict(name='c15-auth-mode-nonempty-default', expect=[('C15', 'R15.3')],
+         note='Auth/Base use a non-empty default psk on both sides: interop only',
+         edits=[(OPMODE, """            OpModeS::AuthPsk(_, bundle) => bundle.psk,
+            _ => &[],""", """            OpModeS::AuthPsk(_, bundle) => bundle.psk,
+            _ => &[0u8; 32],"""),
+                (OPMODE, """            OpModeR::AuthPsk(_, bundle) => bundle.psk,
+            _ => &[],""", """            OpModeR::AuthPsk(_, bundle) => bundle.psk,
+            _ => &[0u8; 32],""")]),
+    dict(name='c15-slots-swapped', expect=[('C15', 'R15.3')],
+         note='psk hashed into the context and psk_id used as secret ikm, on both sides',
+         edits=[(SETUP, """labeled_extract::<Kdf>(&[], &suite_id, b"psk_id_hash", mode.get_psk_id());""", """labeled_extract::<Kdf>(&[], &suite_id, b"psk_id_hash", mode.get_psk_bytes());"""),
+                (SETUP, """labeled_extract::<Kdf>(&shared_secret.0, &suite_id, b"secret", mode.get_psk_bytes());""", """labeled_extract::<Kdf>(&shared_secret.0, &suite_id, b"secret", mode.get_psk_id());""")]),
+    dict(name='c15-unvalidated-constructor', expect=[('C15', 'R15.1')],
+         note='a second public constructor skips the check',
+         edits=[(OPMODE, """    pub fn new(psk: &'a [u8], psk_id: &'a [u8]) -> Result<Self, HpkeError> {""", """    pub fn new_unchecked(psk: &'a [u8], psk_id: &'a [u8]) -> Self {
+        PskBundle { psk, psk_id }
+    }
+
+    pub fn new(psk: &'a [u8], psk_id: &'a [u8]) -> Result<Self, HpkeError> {""")]),
 ]
